@@ -8,7 +8,7 @@ checks = sys.argv[sys.argv.index("--") + 1:]
 root = os.path.dirname(os.path.dirname(os.path.abspath(__file__)))
 dst = os.path.join(root, "seeded", sid)
 os.makedirs(dst, exist_ok=True)
-for fn in os.listdir(outdir):
+for fn in (os.listdir(outdir) if os.path.realpath(outdir) != os.path.realpath(dst) else []):
     src = os.path.join(outdir, fn)
     if os.path.isdir(src):
         shutil.copytree(src, os.path.join(dst, fn), dirs_exist_ok=True)
